@@ -520,6 +520,8 @@ class Interp:
         if k == 'CXXThrowExpr':
             for s, _v in self.evs(fn, ks, st, fr):
                 self.throws.append((fn, n, nd.get('thrown')))
+                if getattr(self, 'throw_hook', None) is not None and getattr(self, 'recording', True):
+                    self.throw_hook(fn, n, s, fr)
             return []
         if k == 'UnaryExprOrTypeTraitExpr':
             return [(st, UNK)]
